@@ -658,7 +658,7 @@ fn run_family<F: Family>(rng: &mut Rng, len: usize) -> Outcome {
             let extra: Vec<&String> = all.difference(&want_all).collect();
             out.violation = Some((
                 format!("{}/{opname}/get_rules-{}", F::NAME, if !missing.is_empty() { "misses-active-rule" } else { "reports-rule-not-given" }),
-                format!("step {step}: missing {missing:?} extra {extra:?}; history {:?}", out.log),
+                format!("step {step}: missing {missing:?} extra {extra:?}; history {:?}; pool {:?}", out.log, pool.iter().enumerate().map(|(i, r)| format!("{i}:{}{}", keys[i], if valid[i] { "" } else { "!" })).collect::<Vec<_>>()),
             ));
             break;
         }
@@ -735,7 +735,7 @@ fn main() {
         let mut rng = Rng::new(opts.seed.wrapping_mul(0x9E37).wrapping_add(opts.shard * 1_000_003).wrapping_add(i * 7919).wrapping_add(thorough as u64));
         let len = 2 + rng.below(11) as usize;
         VClock::advance_ms(60_000);
-        let fam = i % 5;
+        let fam = opts.flag("family").map(|s| s.parse().unwrap()).unwrap_or(i % 5);
         let o = match fam {
             0 => run_family::<FlowF>(&mut rng, len),
             1 => run_family::<IsoF>(&mut rng, len),
